@@ -103,7 +103,7 @@ pub fn run(args: &[String]) {
     let (mut ops, mut out) = (String::new(), String::new());
     let mut hist: std::collections::BTreeMap<String, usize> = Default::default();
     let (mut ncalls, mut ncbs) = (0usize, 0usize);
-    let kinds = [Kind::Harmonic, Kind::Logistic, Kind::Decay3, Kind::Riccati, Kind::VdP, Kind::Mixed, Kind::Stiff, Kind::VdPStiff, Kind::Robertson, Kind::Blowup, Kind::Slow];
+    let kinds = [Kind::Harmonic, Kind::Logistic, Kind::Decay3, Kind::Riccati, Kind::VdP, Kind::Mixed, Kind::Stiff, Kind::VdPStiff, Kind::Robertson, Kind::Blowup, Kind::Slow, Kind::Huge];
     for id in 0..cases {
         let kind = *rng.pick(&kinds);
         let mut p = Prob::new(kind);
